@@ -1,5 +1,6 @@
 import DdoModel.Proto
 import DdoModel.Gap
+import DdoModel.GapFloat
 import DdoModel.Width
 import DdoModel.Engines.Store
 /-! Driver engines for the small models: `gap` (C17) and `width` (C13 combinators). -/
@@ -25,7 +26,9 @@ def gapEngine (c i : List String) : Option Res := do
     let lb ← int? lb; let ub ← int? ub
     let o ← parseFOut i
     let g := gap lb ub
-    pure { agree := gapAgrees g o, phi := phiGap lb ub o, model := showGap g }
+    -- bit-exact: the binary32 model of the computation (`GapFloat.lean`: round-to-nearest-even conversions and division)
+    let mf := gapFTokens lb ub
+    pure { agree := gapAgrees g o && i == mf, phi := phiGap lb ub o, model := showGap g ++ " = " ++ join mf }
   | _ => none
 
 partial def parseW : List String → Option (WExpr × List String)
